@@ -68,12 +68,18 @@ RULE = ("cases = (operation getitem|vindex|blocks, shape, chunking, dtype, encod
 ASSUMPTIONS = ["NumPy 2.x indexing defines the expected result", "sync scheduler (threads for a tenth)",
                "vindex axis order as documented in Array.vindex"]
 BUDGET = {"quick": 120, "thorough": 900}
-FLOORS = {"quick": {"evaluations": 1, "distinct_nontrivial": 1, "counters": {}, "max_skipped_fraction": 0.35},
-          "thorough": {"evaluations": 1, "distinct_nontrivial": 1, "counters": {}, "max_skipped_fraction": 0.35}}
+FLOORS = {"quick": {"evaluations": 8000, "distinct_nontrivial": 6000,
+                    "counters": {"compared": 8000, "lazy_meta_checked": 7500, "blocks_checked": 7500, "compared_getitem": 7000,
+                                 "compared_vindex": 450, "compared_blocks": 250, "unknown_chunks_results": 250},
+                    "sets": {"index_feature_tokens": 55}, "max_skipped_fraction": 0.2},
+          "thorough": {"evaluations": 150000, "distinct_nontrivial": 120000,
+                       "counters": {"compared": 150000, "lazy_meta_checked": 140000, "blocks_checked": 140000,
+                                    "compared_vindex": 6000, "compared_blocks": 3500, "unknown_chunks_results": 3500},
+                       "sets": {"index_feature_tokens": 80}, "max_skipped_fraction": 0.2}}
 EXHAUSTIVE_SPACE = {
     "quick": "all slices (start, stop in [-n-1, n+1] u {None}; step in {None, 1, -1, 2, -2, 3, -3}) of 1-d arrays of length n = 0..4 x all chunkings of the axis",
     "thorough": "all slices (start, stop in [-n-1, n+1] u {None}; step in {None, 1, -1, 2, -2, 3, -3}) of 1-d arrays of length n = 0..6 x all chunkings; "
-                "products of slices (start, stop in [-n-1, n+1] u {None}; step in {1, -1, -2}) on shape (3, 2) x all 8 chunkings",
+                "products of slices (start, stop in [-n-1, n+1] u {None}; step in {1, -1, -2} on axis 0, {-1, 2} on axis 1) on shape (3, 2) x all 8 chunkings",
 }
 CLAIM = ("Every generated index was applied to the real dask.array (getitem / vindex / blocks) and to NumPy on the same data; "
          "held = the computed values equal NumPy's exactly, the lazy shape/dtype/chunks agree with the computed value block by "
@@ -131,11 +137,11 @@ def cases(tier, seed):
                     for c0 in (1, -1, -2):
                         for a1 in _bounds(2):
                             for b1 in _bounds(2):
-                                for c1 in (1, -1, -2):
+                                for c1 in (-1, 2):
                                     yield {"space": "exhaustive", "op": "getitem", "shape": [3, 2], "chunks": [list(c) for c in chs],
                                            "dtype": "int64", "bare": False,
                                            "index": [{"k": "slice", "v": [a0, b0, c0]}, {"k": "slice", "v": [a1, b1, c1]}]}
-    n = 6000 if tier == "quick" else 100000
+    n = 6000 if tier == "quick" else 80000
     for _ in range(n):
         nd = rng.choice((0, 1, 1, 1, 2, 2, 2, 3, 3, 4)) if rng.random() < 0.1 else rng.choice((1, 1, 2, 2, 2, 3, 3, 4))
         maxlen = {0: 9, 1: 9, 2: 9, 3: 6, 4: 4}[nd]
